@@ -126,6 +126,8 @@ structure Rel (c : CW) (s : WS) : Prop where
     ∃ h ∈ c.w.marked, c.w.isValid h = true ∧ ordOf c.issued h = some o
   markedLt : ∀ o ∈ s.marked, o < s.ents.length
   markedNodup : s.marked.Nodup
+  /-- a marked ordinal was alive when it was marked, so it is not one of the reserved, still pending ones -/
+  markedOld : ∀ o ∈ s.marked, ∀ h, c.issued[o]? = some h → h ∉ createHandles c.w.buffers
 
 /-! ## invariants -/
 
